@@ -902,4 +902,185 @@ theorem convLoop_sim (m : Mode) (en : Endian) (format : Format) (addrSize : Nat)
             simp only [obsOut, obsIn, hR1end, ↓reduceIte]
             congr 1
             omega
+
+/-- the row-encoder state of the program is untouched -/
+def PF (p p' : Prog) : Prop :=
+  p'.instrs = p.instrs ∧ p'.prevRow = p.prevRow ∧ p'.row = p.row ∧ p'.inSequence = p.inSequence ∧
+  p'.enc = p.enc
+
+theorem PF.refl (p : Prog) : PF p p := ⟨rfl, rfl, rfl, rfl, rfl⟩
+theorem PF.trans {a b c : Prog} (h1 : PF a b) (h2 : PF b c) : PF a c :=
+  ⟨h2.1.trans h1.1, h2.2.1.trans h1.2.1, h2.2.2.1.trans h1.2.2.1, h2.2.2.2.1.trans h1.2.2.2.1,
+    h2.2.2.2.2.trans h1.2.2.2.2⟩
+
+theorem addDirectory_PF (p p' : Prog) (d : LineStr) (id : Nat) (h : addDirectory p d = .ok (p', id)) : PF p p' := by
+  unfold addDirectory at h
+  split at h
+  · cases h
+  · split at h
+    · cases h
+    · split at h
+      · simp only [Out.ok.injEq, Prod.mk.injEq] at h; rw [← h.1]; exact PF.refl p
+      · simp only [Out.ok.injEq, Prod.mk.injEq] at h; rw [← h.1]; exact ⟨rfl, rfl, rfl, rfl, rfl⟩
+
+theorem addFile_PF (p p' : Prog) (n : LineStr) (d : Nat) (i : Option FileInfo) (id : Nat)
+    (h : addFile p n d i = .ok (p', id)) : PF p p' := by
+  rcases addFile_unfold _ _ _ _ _ _ h with ⟨_, hp⟩ | ⟨_, _, hp⟩ <;> rw [hp] <;> exact ⟨rfl, rfl, rfl, rfl, rfl⟩
+
+theorem progNew_spec (m : Mode) (format : Format) (addrSize : Nat) (e : Enc) (wd : LineStr)
+    (sd : Option LineStr) (sf : LineStr) (si : Option FileInfo) (p : Prog)
+    (h : Prog.new m format addrSize e wd sd sf si = .ok p) :
+    p.instrs = [] ∧ p.prevRow = WRow.initial e ∧ p.row = WRow.initial e ∧ p.inSequence = false ∧ p.enc = e := by
+  unfold Prog.new at h
+  cases hc : newCheck m e.lineBase e.lineRange with
+  | ok u =>
+    rw [hc] at h
+    simp only [Out.bind_ok] at h
+    generalize hp0 : Prog.mk format addrSize e [] [] false false false false (WRow.initial e) (WRow.initial e) [] false = p0 at h
+    have q0 : p0.instrs = [] ∧ p0.prevRow = WRow.initial e ∧ p0.row = WRow.initial e ∧ p0.inSequence = false ∧
+        p0.enc = e := by rw [← hp0]; exact ⟨rfl, rfl, rfl, rfl, rfl⟩
+    cases h1 : addDirectory p0 wd with
+    | ok v1 =>
+      rw [h1] at h
+      simp only [Out.bind_ok] at h
+      have pf1 := addDirectory_PF _ _ _ _ h1
+      by_cases hv : e.version ≥ 5
+      · rw [if_pos hv] at h
+        cases sd with
+        | none =>
+          simp only [Out.pure_eq, Out.bind_ok] at h
+          cases h3 : addFile v1.1 sf v1.2 si with
+          | ok v3 =>
+            rw [h3] at h
+            simp only [Out.bind_ok, Out.ok.injEq] at h
+            subst h
+            have pf := pf1.trans (addFile_PF _ _ _ _ _ _ h3)
+            exact ⟨pf.1.trans q0.1, pf.2.1.trans q0.2.1, pf.2.2.1.trans q0.2.2.1, pf.2.2.2.1.trans q0.2.2.2.1, pf.2.2.2.2.trans q0.2.2.2.2⟩
+          | err x => rw [h3] at h; simp at h
+          | panic x => rw [h3] at h; simp at h
+          | diverge => rw [h3] at h; simp at h
+        | some d =>
+          simp only at h
+          cases h2 : addDirectory v1.1 d with
+          | ok v2 =>
+            rw [h2] at h
+            simp only [Out.bind_ok] at h
+            cases h3 : addFile v2.1 sf v2.2 si with
+            | ok v3 =>
+              rw [h3] at h
+              simp only [Out.bind_ok, Out.pure_eq, Out.ok.injEq] at h
+              subst h
+              have pf := (pf1.trans (addDirectory_PF _ _ _ _ h2)).trans (addFile_PF _ _ _ _ _ _ h3)
+              exact ⟨pf.1.trans q0.1, pf.2.1.trans q0.2.1, pf.2.2.1.trans q0.2.2.1, pf.2.2.2.1.trans q0.2.2.2.1, pf.2.2.2.2.trans q0.2.2.2.2⟩
+            | err x => rw [h3] at h; simp at h
+            | panic x => rw [h3] at h; simp at h
+            | diverge => rw [h3] at h; simp at h
+          | err x => rw [h2] at h; simp at h
+          | panic x => rw [h2] at h; simp at h
+          | diverge => rw [h2] at h; simp at h
+      · rw [if_neg hv] at h
+        simp only [Out.pure_eq, Out.ok.injEq] at h
+        subst h
+        exact ⟨pf1.1.trans q0.1, pf1.2.1.trans q0.2.1, pf1.2.2.1.trans q0.2.2.1, pf1.2.2.2.1.trans q0.2.2.2.1, pf1.2.2.2.2.trans q0.2.2.2.2⟩
+    | err x => rw [h1] at h; simp at h
+    | panic x => rw [h1] at h; simp at h
+    | diverge => rw [h1] at h; simp at h
+  | err x => rw [hc] at h; simp at h
+  | panic x => rw [hc] at h; simp at h
+  | diverge => rw [hc] at h; simp at h
+
+/-- the converter's own registers and the row-encoder state of the program are untouched -/
+def SF (st st' : CSt) : Prop :=
+  PF st.prog st'.prog ∧ st'.fromRow = st.fromRow ∧ st'.fromAddress = st.fromAddress
+
+theorem SF.refl (st : CSt) : SF st st := ⟨PF.refl _, rfl, rfl⟩
+theorem SF.trans {a b c : CSt} (h1 : SF a b) (h2 : SF b c) : SF a c :=
+  ⟨h1.1.trans h2.1, h2.2.1.trans h1.2.1, h2.2.2.trans h1.2.2⟩
+
+theorem convertFiles_SF (strs : Strs) : ∀ (fs : List FileEntry) (st st' : CSt),
+    convertFiles strs st fs = .ok st' → SF st st' := by
+  intro fs
+  induction fs with
+  | nil => intro st st' h; simp only [convertFiles, CRes.ok.injEq] at h; subst h; exact SF.refl _
+  | cons f fs ih =>
+    intro st st' h
+    rw [convertFiles] at h
+    cases hc : convertFile strs st f with
+    | ok st1 =>
+      rw [hc] at h
+      simp only [CRes.bind_ok] at h
+      obtain ⟨⟨f1, f2, f3, f4, f5, _⟩, e1, e2, _⟩ := convertFile_frame strs st st1 f hc
+      exact SF.trans ⟨⟨f1, f2, f3, f4, f5⟩, e1, e2⟩ (ih st1 st' h)
+    | err e => rw [hc] at h; simp at h
+    | panic w => rw [hc] at h; simp at h
+
+theorem convertDirs_SF (strs : Strs) : ∀ (ds : List AttrVal) (st st' : CSt),
+    convertDirs strs st ds = .ok st' → SF st st' := by
+  intro ds
+  induction ds with
+  | nil => intro st st' h; simp only [convertDirs, CRes.ok.injEq] at h; subst h; exact SF.refl _
+  | cons d ds ih =>
+    intro st st' h
+    rw [convertDirs] at h
+    cases hc : convertString strs st.prog.enc.version st.tabs d with
+    | ok v =>
+      rw [hc] at h
+      simp only [CRes.bind_ok] at h
+      cases ha : addDirectory st.prog v.2 with
+      | ok v2 =>
+        rw [ha] at h
+        simp only [ofWrite, CRes.bind_ok] at h
+        exact SF.trans (b := { st with prog := v2.1, tabs := v.1, dirs := st.dirs ++ [v2.2] })
+          ⟨addDirectory_PF st.prog v2.1 v.2 v2.2 ha, rfl, rfl⟩ (ih _ st' h)
+      | err e => rw [ha] at h; simp [ofWrite] at h
+      | panic w => rw [ha] at h; simp [ofWrite] at h
+      | diverge => rw [ha] at h; simp [ofWrite] at h
+    | err e => rw [hc] at h; simp at h
+    | panic w => rw [hc] at h; simp at h
+
+theorem convNew_spec (m : Mode) (strs : Strs) (hd : Header) (tabs : Tabs) (st : CSt)
+    (h : convNew m strs hd tabs = .ok st) :
+    ¬ (hd.p.lineBase > 0 ∨ hd.p.lineBase + (hd.p.lineRange : Int) ≤ 0) ∧
+    st.prog.instrs = [] ∧ st.prog.prevRow = WRow.initial (encOf hd.p) ∧ st.prog.row = WRow.initial (encOf hd.p) ∧
+    st.prog.inSequence = false ∧ st.prog.enc = encOf hd.p ∧ st.fromRow = Row.new hd.p ∧ st.fromAddress = 0 := by
+  unfold convNew at h
+  dsimp only at h
+  cases h1 : workingDir strs hd tabs with
+  | err e => rw [h1] at h; simp at h
+  | panic w => rw [h1] at h; simp at h
+  | ok v1 =>
+    rw [h1] at h
+    simp only [CRes.bind_ok] at h
+    cases h2 : sourceFile strs hd v1.1 with
+    | err e => rw [h2] at h; simp at h
+    | panic w => rw [h2] at h; simp at h
+    | ok v2 =>
+      rw [h2] at h
+      simp only [CRes.bind_ok] at h
+      by_cases hlb : hd.p.lineBase > 0 ∨ hd.p.lineBase + (hd.p.lineRange : Int) ≤ 0
+      · rw [if_pos hlb] at h; cases h
+      · rw [if_neg hlb] at h
+        cases h3 : Prog.new m hd.p.format hd.p.addrSize (encOf hd.p) v1.2 v2.2.1 v2.2.2 none with
+        | ok prog =>
+          rw [h3] at h
+          simp only [ofWrite, CRes.bind_ok] at h
+          obtain ⟨q1, q2, q3, q4, q5⟩ := progNew_spec _ _ _ _ _ _ _ _ _ h3
+          cases h4 : convertDirs strs { prog := prog, tabs := v2.1, files := if hd.p.version ≤ 4 then [0] else [], dirs := if hd.p.version ≤ 4 then [0] else [], fromRow := Row.new hd.p, fromAddress := 0, inSeq := false } hd.dirs with
+          | ok st1 =>
+            rw [h4] at h
+            simp only [CRes.bind_ok] at h
+            obtain ⟨⟨a1, a2, a3, a4, a5⟩, a6, a7⟩ := convertDirs_SF strs _ _ _ h4
+            obtain ⟨⟨b1, b2, b3, b4, b5⟩, b6, b7⟩ := convertFiles_SF strs _ _ _ h
+            exact ⟨hlb, by rw [b1]; show st1.prog.instrs = []; rw [a1]; exact q1,
+              by rw [b2]; show st1.prog.prevRow = _; rw [a2]; exact q2,
+              by rw [b3]; show st1.prog.row = _; rw [a3]; exact q3,
+              by rw [b4]; show st1.prog.inSequence = _; rw [a4]; exact q4,
+              by rw [b5]; show st1.prog.enc = _; rw [a5]; exact q5,
+              by rw [b6]; show st1.fromRow = _; rw [a6],
+              by rw [b7]; show st1.fromAddress = _; rw [a7]⟩
+          | err e => rw [h4] at h; simp at h
+          | panic w => rw [h4] at h; simp at h
+        | err e => rw [h3] at h; simp [ofWrite] at h
+        | panic w => rw [h3] at h; simp [ofWrite] at h
+        | diverge => rw [h3] at h; simp [ofWrite] at h
 end Gimli.ConvLineRows
